@@ -33,6 +33,7 @@ type Scheduler struct {
 	haveOutcome bool
 	wg          sync.WaitGroup
 	preemptions int
+	noPreempt   bool // verif.Preemptible(false): sequential phase of a harness
 	visible     int
 	mainDone    bool
 }
@@ -138,6 +139,9 @@ func (s *Scheduler) yield() {
 		return
 	}
 	if pb := in.eng.preemptBound(); pb >= 0 && s.preemptions >= pb {
+		return
+	}
+	if s.noPreempt {
 		return
 	}
 	// order: current thread first so choice 0 = no preemption
